@@ -36,6 +36,9 @@ type faultSpec struct {
 	Reveal      string `json:",omitempty"`
 	RevealField string `json:",omitempty"`
 	Arity       int    `json:",omitempty"`
+	// All: every sender's message of this type towards the victim Recip is altered (several faulty peers at once);
+	// Deviator then only names one of them.
+	All bool `json:",omitempty"`
 }
 
 type faultCase struct {
@@ -112,7 +115,7 @@ type faultRun struct {
 func (fr *faultRun) otherEmit(d *sim.Delivery) *sim.Emit {
 	var fallback *sim.Emit
 	for _, e := range fr.x.net.Emits {
-		if e.From == fr.c.F.Deviator || e.Type != d.E.Type {
+		if e.From == d.E.From || e.Type != d.E.Type {
 			continue
 		}
 		if !e.Bcast {
@@ -165,6 +168,33 @@ func (fr *faultRun) alter(d *sim.Delivery) ([]byte, bool) {
 	}
 	if strings.HasPrefix(f.Kind, "redeal:") {
 		return fr.alterRedeal(d)
+	}
+	if f.Kind == "rand-all-fields" { // every field of the message replaced by random bytes of the same length
+		_, refs, _, err := listFields(d.E.Bytes)
+		if err != nil || len(refs) == 0 {
+			fr.na = true
+			return d.E.Bytes, true
+		}
+		out, err := rewriteWire(d.E.Bytes, func(m protoreflect.Message) {
+			for _, ref := range refs {
+				nv := make([]byte, len(getField(m, ref)))
+				if len(nv) == 0 {
+					nv = make([]byte, 1)
+				}
+				rand.Read(nv)
+				if nv[0] == 0 {
+					nv[0] = 1
+				}
+				setField(m, ref, nv)
+			}
+		})
+		if err != nil {
+			return nil, false
+		}
+		if cacheable {
+			fr.cache[d.E] = out
+		}
+		return out, true
 	}
 	var sumOthers *big.Int
 	if f.Kind == "sum-zero" { // a rushing deviator: its value cancels the sum of everybody else's
@@ -275,6 +305,9 @@ func (fr *faultRun) install() {
 	f := fr.c.F
 	fr.cache = map[*sim.Emit][]byte{}
 	match := func(d *sim.Delivery) bool {
+		if f.All {
+			return d.E.Type == f.MsgType && d.To == f.Recip
+		}
 		if d.E.From != f.Deviator {
 			return false
 		}
@@ -550,6 +583,9 @@ func runFault(c faultCase, mode string) ev.Outcome {
 	}
 	covered := coveredFieldKind(c.F.MsgType, c.F.Field.Name, c.F.Kind) && (c.F.Kind == "+1" || c.F.Kind == "neg" || c.F.Kind == "rand" || c.F.Kind == "other" || c.F.Kind == "remove" || strings.HasPrefix(c.F.Kind, "commit:") || strings.HasPrefix(c.F.Kind, "bits-"))
 	out := ev.Outcome{Label: fmt.Sprintf("%s %s.%s kind=%s dev=%d", c.Run.Proto, shortType(c.F.MsgType), c.F.Field.Name, c.F.Kind, c.F.Deviator)}
+	if c.F.All {
+		out.Label = fmt.Sprintf("%s %s.%s kind=%s from every peer of party %d", c.Run.Proto, shortType(c.F.MsgType), c.F.Field.Name, c.F.Kind, c.F.Recip)
+	}
 	out.Nontrivial = fr.consumed > 0
 	if fr.applied == 0 || fr.na {
 		out.Label = "not-applied " + out.Label
